@@ -257,7 +257,7 @@ func runSpecs(c *mc.Ctx, r *mc.Result, name string, sp []rsx.RouteSpec, k int, r
 		if !c.Mine(i) || stopped {
 			return
 		}
-		if i&63 == 0 && c.Expired() {
+		if c.ExpiredEvery(64) {
 			stopped = true
 			r.NotExhaustive = append(r.NotExhaustive, fmt.Sprintf("time guard hit at subset #%d", i))
 			return
